@@ -1,6 +1,7 @@
 package rules
 
 import (
+	"go/token"
 	"fmt"
 
 	"golang.org/x/tools/go/ssa"
@@ -144,17 +145,45 @@ func literalFields(a *ssa.Alloc) map[string]ssa.Value {
 	if a.Referrers() == nil {
 		return out
 	}
-	for _, ref := range *a.Referrers() {
-		fa, ok := ref.(*ssa.FieldAddr)
-		if !ok || fa.Referrers() == nil {
-			continue
+	collect := func(base ssa.Value) {
+		if base.Referrers() == nil {
+			return
 		}
-		f, _ := core.FieldOfAddr(fa)
-		for _, r2 := range *fa.Referrers() {
-			if st, ok := r2.(*ssa.Store); ok && st.Addr == ssa.Value(fa) {
-				out[f.Name()] = st.Val
+		for _, ref := range *base.Referrers() {
+			fa, ok := ref.(*ssa.FieldAddr)
+			if !ok || fa.X != base || fa.Referrers() == nil {
+				continue
+			}
+			f, _ := core.FieldOfAddr(fa)
+			for _, r2 := range *fa.Referrers() {
+				if st, ok := r2.(*ssa.Store); ok && st.Addr == ssa.Value(fa) {
+					out[f.Name()] = st.Val
+				}
 			}
 		}
+	}
+	collect(a)
+	// the object may also be filled through the field it was stored into:
+	// `m := &Outer{Inner: &T{}}; m.Inner.F = v` - loads of that field of the same outer object
+	fn := a.Parent()
+	for _, ref := range *a.Referrers() {
+		st, ok := ref.(*ssa.Store)
+		if !ok || st.Val != ssa.Value(a) {
+			continue
+		}
+		hf, hbase := core.FieldOfAddr(st.Addr)
+		if hf == nil {
+			continue
+		}
+		core.AllInstrs(fn, func(in ssa.Instruction) {
+			ld, ok := in.(*ssa.UnOp)
+			if !ok || ld.Op != token.MUL {
+				return
+			}
+			if f2, b2 := core.FieldOfAddr(ld.X); f2 == hf && b2 == hbase {
+				collect(ld)
+			}
+		})
 	}
 	return out
 }
@@ -172,7 +201,7 @@ func (c *Ctx) checkPushAudience() {
 	r.Floor("C02.5-push-audience", 4)
 	modeOK := func(v ssa.Value) bool { return c.isEffMode()(v) || c.isIntersection(v, 0) }
 	for _, fn := range c.P.ModFuncs {
-		if !core.InPkg(fn, "server") || !isPtrToNamedRecv(fn, "Topic") {
+		if !core.InPkg(fn, "server") {
 			continue
 		}
 		// functions that fill Receipt.To while ranging over Topic.perUser for a {data} message
